@@ -562,6 +562,30 @@ __wrap_send(int fd, const void * buf, size_t len, int flags)
 	n = len < s->txwin ? len : s->txwin;
 	if (d.kind == TD_CAP && d.arg >= 1 && (size_t)d.arg < n)
 		n = (size_t)d.arg;
+	if (s->bulk_len > 0 && (const uint8_t *)buf >= s->bulk_base && (const uint8_t *)buf < s->bulk_base + s->bulk_len) {
+		/*
+		 * A transfer too large to log byte by byte (gigabytes): the bytes are identified by their address
+		 * inside the caller's buffer instead.  One send moves at most MAX_RW_COUNT bytes, as on Linux.
+		 */
+		n = len;
+		if (n > (size_t)0x7ffff000)
+			n = (size_t)0x7ffff000;
+		if (d.kind == TD_CAP && d.arg >= 1)
+			n = n / (size_t)(1 + d.arg % 7) + 1;
+		if (n > len)
+			n = len;
+		if ((const uint8_t *)buf != s->bulk_base + s->bulk_sent || len > s->bulk_len - s->bulk_sent)
+			s->bulk_misordered = 1;
+		s->bulk_sent += n;
+		s->txlen += n;
+		vk_stats.bytes_out += n;
+		if (n < len)
+			vk_stats.send_short++;
+		TR(0xD4, s->id, n, "send(fd=%d, len=%zu) -> %zu (bulk; total sent %zu)", fd, len, n, s->txlen);
+		if (vk_on_send != NULL)
+			vk_on_send(s, buf, (long)n, 0);
+		return ((ssize_t)n);
+	}
 	if (n < len)
 		vk_stats.send_short++;
 	if (s->txlen + n > s->txcap) {
